@@ -300,7 +300,33 @@ pub fn gen_unicode(rng: &mut Rng, c: &Corpus, max_pieces: usize) -> String {
 
 /// Very long words and sentences.
 pub fn gen_long(rng: &mut Rng, c: &Corpus) -> String {
-    match rng.below(4) {
+    match rng.below(6) {
+        4 | 5 => {
+            // several blocks, some of them sentences around the length thresholds of the rules
+            // (LongSentences: 40 words), with and without a terminator, next to other blocks
+            let blocks = rng.range(2, 5);
+            let mut s = String::new();
+            for b in 0..blocks {
+                if b > 0 {
+                    s.push_str(rng.pick_str(&["\n\n", "\n\n", "\n", "\n- ", "\n\n# ", "\n\n> ", "\n\n1. ", " ", "\n\n```\ncode\n```\n\n", "\n\n| a | b |\n|---|---|\n| "]));
+                }
+                let sentences = rng.range(1, 3);
+                for k in 0..sentences {
+                    if k > 0 {
+                        s.push(' ');
+                    }
+                    let n = *rng.pick(&[1usize, 3, 8, 39, 40, 41, 42, 60, 120]);
+                    for i in 0..n {
+                        if i > 0 {
+                            s.push_str(if rng.chance(1, 25) { ", " } else { " " });
+                        }
+                        s.push_str(rng.pick_str(&c.vocab));
+                    }
+                    s.push_str(rng.pick_str(&[".", ".", "", "", "!", "?", ":", "\u{2026}", " -"]));
+                }
+            }
+            s
+        }
         0 => {
             let n = rng.range(300, 2000);
             let base = rng.pick(&c.vocab).clone();
